@@ -122,6 +122,15 @@ func (m *monitor) Send3(id uuid.UUID, update database.Update) {
 	}
 }
 
+// selectOf returns the select of a monitor request: according to RFC7047 an
+// omitted <monitor-select> selects everything
+func selectOf(request *ovsdb.MonitorRequest) *ovsdb.MonitorSelect {
+	if request == nil || request.Select == nil {
+		return ovsdb.NewDefaultMonitorSelect()
+	}
+	return request.Select
+}
+
 func filterColumns(row *ovsdb.Row, columns map[string]bool) *ovsdb.Row {
 	if row == nil {
 		return nil
@@ -155,11 +164,11 @@ func (m *monitor) filter(update database.Update) ovsdb.TableUpdates {
 			ru := &ovsdb.RowUpdate{}
 			ru.FromRowUpdate2(ru2)
 			switch {
-			case ru.Insert() && m.request[table].Select.Insert():
+			case ru.Insert() && selectOf(m.request[table]).Insert():
 				fallthrough
-			case ru.Modify() && m.request[table].Select.Modify():
+			case ru.Modify() && selectOf(m.request[table]).Modify():
 				fallthrough
-			case ru.Delete() && m.request[table].Select.Delete():
+			case ru.Delete() && selectOf(m.request[table]).Delete():
 				if len(cols) == 0 {
 					return nil
 				}
@@ -192,11 +201,11 @@ func (m *monitor) filter2(update database.Update) ovsdb.TableUpdates2 {
 		}
 		_ = update.ForEachRowUpdate(table, func(uuid string, ru2 ovsdb.RowUpdate2) error {
 			switch {
-			case ru2.Insert != nil && m.request[table].Select.Insert():
+			case ru2.Insert != nil && selectOf(m.request[table]).Insert():
 				fallthrough
-			case ru2.Modify != nil && m.request[table].Select.Modify():
+			case ru2.Modify != nil && selectOf(m.request[table]).Modify():
 				fallthrough
-			case ru2.Delete != nil && m.request[table].Select.Delete():
+			case ru2.Delete != nil && selectOf(m.request[table]).Delete():
 				if len(cols) == 0 {
 					return nil
 				}
